@@ -243,9 +243,6 @@ def step_oracle(L, nl, out):
         # "handles every incoming event": nothing stays queued in a layer that is not waiting
         if ly.waiting is None and ly._paused_event_queue:
             f.append("layer %d is not waiting but keeps %d events queued" % (i, len(ly._paused_event_queue)))
-    for c in out:
-        if c.blocking is True:
-            f.append("command %s leaves the top layer with blocking=True" % cmd_str(c))
     return f
 
 
@@ -346,17 +343,23 @@ SMALL_PROGS = [
 class Check(PropertyCheck):
     prop = "C04"
     design_ref = "§5 C04"
-    level_text = ("Lean theorems about an executable model of Layer.handle_event/__process/__continue (generators as "
-                  "resumption trees, commands with identity, the paused slot and the paused-event queue), of a parent "
-                  "layer relaying child layers, and of NextLayer, for EVERY handler program and EVERY schedule of events "
-                  "and completions (induction over the schedule, no bound); the model is tied to the real Layer/NextLayer "
-                  "classes by running generated handler programs on a real layer tree and in the compiled model and "
-                  "comparing, after every step, emitted commands, every layer's _paused/_paused_event_queue, "
-                  "NextLayer.events, and the per-layer sequence of handled events and sent-in values.")
+    level_text = ("Lean theorems handled_eq_arrivals, no_handle_while_paused (+ scan_pause_then_resume), "
+                  "resume_gets_own_reply (+ resumes_are_arrivals), emitted_never_blocking_true, "
+                  "child_block_does_not_block_parent, parent_pauses_only_on_own_commands, nextlayer_replay_in_order about an "
+                  "executable model of Layer.handle_event/__process/__continue (generators as resumption trees, commands "
+                  "with identity, the _paused slot and _paused_event_queue), of a parent layer relaying child layers via "
+                  "`yield from child.handle_event`, and of NextLayer — for EVERY handler, EVERY state and EVERY schedule of "
+                  "events and completions (induction over the schedule, no bound). The model is tied to the real "
+                  "Layer/NextLayer classes by running generated handler programs on a real 5-layer tree (+ real NextLayer) "
+                  "and in the compiled model, comparing after every step the emitted commands with their blocking "
+                  "attribute, every layer's _paused command and _paused_event_queue, NextLayer.events/_handle, and per "
+                  "layer the sequence of _handle_event calls and of values sent into the generators.")
     level_note = ("trusted: Lean kernel; Python generator semantics (send/StopIteration/yield from) are the modelled "
                   "primitive; commands yielded by handle_event are consumed completely and non-reentrantly before the "
                   "next event is delivered (what proxy/server.py does); the addon's next-layer decision is modelled as "
-                  "part of the hook's reply; the tie is differential (random programs x random/exhaustive schedules).")
+                  "part of the hook's reply; proxy_debug logging (Layer.debug, off by default) is not modelled; ghost fields "
+                  "log/arrived of the model carry the theorems' vocabulary; the tie is differential (random programs x "
+                  "random/exhaustive schedules), not a proof about the Python text.")
     technique = "Lean 4 proof (induction over schedules, for all handlers) + program-interpreting correspondence on real Layer/NextLayer objects"
     rule = ("a case = 5 handler programs (event kind -> <=6 yields with blocking flags, interleaved with child relays; "
             "tree of depth 3 with two siblings) + optional real NextLayer in front + a schedule of <=40 steps over "
